@@ -1474,3 +1474,7 @@ BITS_DEC_INDEF = Contract(
     exit_ensures=[('one-result', 'nyields() == 1')],
     may_raise={'PyAsn1Error': True}, note=BITS_DEC_CONSTRUCTED.note)
 CONTRACTS = CONTRACTS + [BITS_DEC_CONSTRUCTED, BITS_DEC_INDEF]
+
+
+# ---- bounded instances, labelled so ---------------------------------------------------------------------------------------------
+OPEN_TYPES.bounded = OPEN_TYPES_INDEF.bounded = 'a record of one governing member and one open-type member'
